@@ -27,6 +27,7 @@ COVR_NONE = z3.Function("atom.covalent_radius_is_none", Atom, z3.BoolSort())
 COVR = z3.Function("atom.covalent_radius", Atom, z3.RealSort())
 HAS_SLD = z3.Function("atom.has_sld", Atom, z3.BoolSort())
 IS_ED = z3.Function("atom.is_energy_dependent", Atom, z3.BoolSort())
+B_C0 = z3.Function("atom.b_c", Atom, z3.RealSort())
 B_RE = z3.Function("atom.b_c_re", Atom, z3.RealSort(), z3.RealSort())     # (atom, wavelength)
 B_IM = z3.Function("atom.b_c_im", Atom, z3.RealSort(), z3.RealSort())
 SIG_S = z3.Function("atom.sigma_s", Atom, z3.RealSort(), z3.RealSort())
@@ -134,7 +135,9 @@ class AtomTheory:
         if name == "__dict__":
             return VSym(a, DictOfAtom(self))
         if name == "neutron":
-            return VObj("NeutronRec", {"atom": v, "is_energy_dependent": IS_ED(a)})
+            # b_c is None exactly for atoms without neutron data (HAS_SLD here means "has data")
+            return VObj("NeutronRec", {"atom": v, "is_energy_dependent": IS_ED(a),
+                                       "b_c": VOpt(z3.Not(HAS_SLD(a)), B_C0(a))})
         if name == "xray":
             return VObj("XrayRec", {"atom": v})
         extra = st.ghost.get("atom_attr")
